@@ -505,59 +505,7 @@ func sridRule(p *core.Program, r *core.Report, rule string) {
 	if fn == nil {
 		return
 	}
-	// srid value: phi(0, extract ReadUInt32) or the extract itself
-	isSRIDVal := func(v ssa.Value) bool {
-		v = eng.StripConv(v)
-		check := func(x ssa.Value) bool {
-			if ex, ok := x.(*ssa.Extract); ok && ex.Index == 0 {
-				if call, ok := ex.Tuple.(*ssa.Call); ok && eng.IsCallTo(call, mod+"/encoding/wkbcommon", "ReadUInt32") {
-					// the SRID read is the one control-dependent on the SRID flag test; identify: second ReadUInt32 in source order
-					return ordinalOf(fn, call) == 2
-				}
-			}
-			return false
-		}
-		if phi, ok := v.(*ssa.Phi); ok {
-			n := 0
-			for _, e := range phi.Edges {
-				if k, isC := eng.ConstInt(e); isC && k == 0 {
-					continue
-				}
-				if !check(e) {
-					return false
-				}
-				n++
-			}
-			return n == 1
-		}
-		return false
-	}
-	n := 0
-	for _, b := range fn.Blocks {
-		for _, in := range b.Instrs {
-			ret, ok := in.(*ssa.Return)
-			if !ok || len(ret.Results) != 2 || !eng.IsNilConst(ret.Results[1]) || eng.IsNilConst(ret.Results[0]) {
-				continue
-			}
-			n++
-			key := fmt.Sprintf("encoding/ewkb.Read/return#%d", n)
-			v := eng.Strip(ret.Results[0])
-			call, isCall := v.(*ssa.Call)
-			okc := false
-			why := "success return value " + v.Name() + " is not the result of SetSRID(int(srid))"
-			if isCall {
-				if o := eng.CalleeObj(call); o != nil && o.Name() == "SetSRID" {
-					args := call.Call.Args
-					if len(args) >= 2 && isSRIDVal(args[len(args)-1]) {
-						okc = true
-					} else {
-						why = "SetSRID is not passed the decoded SRID word"
-					}
-				}
-			}
-			r.Check(okc, rule, key, p.Pos(ret.Pos()), true, "returned geometry = X.SetSRID(int(srid)), srid = phi(0, decoded SRID word)", why)
-		}
-	}
+	sridReaderEval(p, r, rule)
 	// writer
 	wfn := mustFn(p, r, rule, "encoding/ewkb", "Write")
 	if wfn == nil {
